@@ -5,10 +5,13 @@ package main
 // stored-bids-of-bidder scan). bech32 admits more than one spelling of one account (all upper case), and
 // AccAddressFromBech32 accepts it. The structural condition that makes string identity mean account identity:
 // every address string the keeper writes into a record is the canonical rendering AccAddress.String() of a parsed
-// address (or is carried over from a stored record), never the caller's raw string.
+// address (or is carried over from a stored record), never the caller's raw string. Genesis import is a writer too:
+// the Bidder strings of the bids and allow-list entries it stores come from the genesis file, whose validation only
+// checks that they parse.
 
 import (
 	"fmt"
+	"go/token"
 	"go/types"
 	"strings"
 
@@ -42,45 +45,205 @@ func isCanonicalAddrString(t *Term) bool {
 
 func checkAddrCanon(w *World, r *Report, tm *Terms) {
 	r.Rule("ADDR-CANON", "address strings written into records are canonical (AccAddress.String of a parsed address)", 4)
-	seen := map[string]int{}
-	for _, fn := range w.Funcs {
-		if p := pkgOf(fn); p == nil || p.Path() != keeperPath || w.isGenerated(fn) {
+	// every Set of a record with an address string, in every calling context from the module's API: a helper's record
+	// parameter is judged by what its callers pass, an API function's parameter is the caller's raw input
+	type verdict struct {
+		in      ssa.Instruction
+		fn      *ssa.Function
+		coll    string
+		field   string
+		what    string
+		bad     []string
+		genesis bool
+	}
+	byKey := map[string]*verdict{}
+	var order []string
+	sites := tm.sitesWhere(w.apiRoots(), func(fr *Frame, in ssa.Instruction) bool {
+		e := w.EffectOf(in)
+		if e == nil || e.Kind != EffStoreWrite || e.Method != "Set" {
+			return false
+		}
+		_, ok := addrStringFields[e.Coll]
+		return ok && len(in.(ssa.CallInstruction).Common().Args) >= 4
+	})
+	for _, s := range sites {
+		in, fr, fn := s.In, s.Fr, s.Fr.Fn
+		e := w.EffectOf(in)
+		args := in.(ssa.CallInstruction).Common().Args
+		genesis := pkgOf(fn) != nil && pkgOf(fn).Path() == modulePath // genesis import: records come from the genesis file
+		if genesis {
+			if e.Coll != "Bid" && e.Coll != "AllowedBidder" {
+				continue // only the Bidder strings are compared / used as map keys; an auctioneer string is always parsed
+			}
+			k := fmt.Sprintf("%p", in)
+			if byKey[k] == nil {
+				v := &verdict{in: in, fn: fn, coll: e.Coll, field: "Bidder", genesis: true}
+				if why := genesisBidderCanon(w, fn, in, args[3]); why != "" {
+					v.bad = append(v.bad, why)
+				}
+				byKey[k] = v
+				order = append(order, k)
+			}
 			continue
 		}
-		fr := tm.Root(fn)
-		for _, b := range fn.Blocks {
-			for _, in := range b.Instrs {
-				e := w.EffectOf(in)
-				if e == nil || e.Kind != EffStoreWrite || e.Method != "Set" {
-					continue
-				}
-				fields, ok := addrStringFields[e.Coll]
-				args := in.(ssa.CallInstruction).Common().Args
-				if !ok || len(args) < 4 {
-					continue
-				}
-				val := tm.OperandAt(fr, in, args[3])
-				if base := stripUpd(val); fromColl(base, e.Coll) || (e.Coll == "Auction" && (storedAuction(base) || base.Op == "param")) {
-					continue // a loaded record (or the auction handed to a settlement step) written back
-				}
-				for _, f := range fields {
-					ft := recordField(val, f, e.Coll == "Auction")
-					base := fmt.Sprintf("%s:%s.%s", fnName(fn), e.Coll, f)
-					seen[base]++
-					construct := fmt.Sprintf("%s#%d", base, seen[base])
-					r.Check(isCanonicalAddrString(ft), "ADDR-CANON", construct, w.instrPos(in),
-						fmt.Sprintf("the %s string stored in a new %s record is the canonical rendering of a parsed address", f, e.Coll),
-						fmt.Sprintf("%s.%s is written as %s — the caller's raw string. bech32 accepts an all-upper-case spelling of the same account; the record then never matches the canonical strings used as map keys and in comparisons (allowance map of the matching routine: missing entry ⇒ nil Int ⇒ panic in block processing; stored-bids scan: the cumulative cap counts nothing)", e.Coll, f, ft.String()))
-				}
+		val := tm.OperandAt(fr, in, args[3])
+		if base := stripUpd(val); fromColl(base, e.Coll) || (e.Coll == "Auction" && (storedAuction(base) || base.Op == "param")) {
+			continue // a loaded record (or the auction handed to a settlement step) written back
+		}
+		for _, f := range addrStringFields[e.Coll] {
+			k := fmt.Sprintf("%p.%s", in, f)
+			v := byKey[k]
+			if v == nil {
+				v = &verdict{in: in, fn: fn, coll: e.Coll, field: f}
+				byKey[k] = v
+				order = append(order, k)
+			}
+			if ft := recordField(val, f, e.Coll == "Auction"); !isCanonicalAddrString(ft) {
+				v.bad = append(v.bad, ft.String())
 			}
 		}
 	}
-	_ = types.Typ
+	seen := map[string]int{}
+	for _, k := range order {
+		v := byKey[k]
+		base := fmt.Sprintf("%s:%s.%s", fnName(v.fn), v.coll, v.field)
+		seen[base]++
+		construct := fmt.Sprintf("%s#%d", base, seen[base])
+		if v.genesis {
+			r.Check(len(v.bad) == 0, "ADDR-CANON", construct, w.instrPos(v.in),
+				fmt.Sprintf("genesis import stores the canonical rendering of every %s.Bidder string that parses", v.coll),
+				strings.Join(dedupe(v.bad), "; ")+": genesis validation only checks that the string parses, and bech32 accepts an all-upper-case spelling of the same account; the imported record then never matches the canonical strings used as map keys and in comparisons (allowance map of the matching routine: missing entry ⇒ nil Int ⇒ panic in block processing at the end time)")
+			continue
+		}
+		r.Check(len(v.bad) == 0, "ADDR-CANON", construct, w.instrPos(v.in),
+			fmt.Sprintf("the %s string stored in a new %s record is the canonical rendering of a parsed address", v.field, v.coll),
+			fmt.Sprintf("%s.%s is written as %s — the caller's raw string. bech32 accepts an all-upper-case spelling of the same account; the record then never matches the canonical strings used as map keys and in comparisons (allowance map of the matching routine: missing entry ⇒ nil Int ⇒ panic in block processing; stored-bids scan: the cumulative cap counts nothing)", v.coll, v.field, strings.Join(dedupe(v.bad), " / ")))
+	}
 }
 
 func stripUpd(t *Term) *Term {
 	for t.Op == "upd" || t.Op == "new" || t.Op == "deref" {
 		t = t.Args[0]
+	}
+	return t
+}
+
+// genesisBidderCanon decides ADDR-CANON for a record written by genesis import from a local copy of a genesis-file
+// element: on every path on which the element's Bidder string parses, the copy's Bidder has been overwritten with
+// AccAddress.String() of that parse before the write (a string that does not parse cannot be another spelling of an
+// account, so what is stored on the failure path is immaterial). Returns "" when it holds, else the reason.
+func genesisBidderCanon(w *World, fn *ssa.Function, set ssa.Instruction, val ssa.Value) string {
+	ld, ok := val.(*ssa.UnOp)
+	if !ok {
+		return "the stored record is not a local copy of the genesis element"
+	}
+	alloc, ok := ld.X.(*ssa.Alloc)
+	if !ok {
+		return "the stored record is not a local copy of the genesis element"
+	}
+	isBidderAddr := func(v ssa.Value) bool {
+		fa, ok := v.(*ssa.FieldAddr)
+		if !ok || fa.X != ssa.Value(alloc) {
+			return false
+		}
+		st, ok := deref(fa.X.Type()).Underlying().(*types.Struct)
+		return ok && st.Field(fa.Field).Name() == "Bidder"
+	}
+	var stores []*ssa.Store
+	for _, b := range fn.Blocks {
+		for _, in := range b.Instrs {
+			if s, ok := in.(*ssa.Store); ok && isBidderAddr(s.Addr) {
+				stores = append(stores, s)
+			}
+		}
+	}
+	if len(stores) == 0 {
+		return "the Bidder string of the genesis element is stored as it stands in the file"
+	}
+	var parse *ssa.Call
+	for _, s := range stores {
+		c, ok := s.Val.(*ssa.Call)
+		if !ok || callKey(&c.Call) != sdkPath+".AccAddress.String" || len(c.Call.Args) != 1 {
+			return "Bidder is overwritten with something other than AccAddress.String() at " + w.instrPos(s)
+		}
+		ex, ok := c.Call.Args[0].(*ssa.Extract)
+		if !ok || ex.Index != 0 {
+			return "the canonical string is not taken from a parsed address at " + w.instrPos(s)
+		}
+		pc, ok := ex.Tuple.(*ssa.Call)
+		if !ok || callKey(&pc.Call) != sdkPath+".AccAddressFromBech32" {
+			return "the canonical string is not taken from AccAddressFromBech32 at " + w.instrPos(s)
+		}
+		if l, ok := pc.Call.Args[0].(*ssa.UnOp); !ok || !isBidderAddr(l.X) {
+			return "the parsed string is not the element's own Bidder at " + w.instrPos(pc)
+		}
+		if parse != nil && parse != pc {
+			return "Bidder is overwritten from more than one parse"
+		}
+		parse = pc
+	}
+	if !instrDominates(parse, set) {
+		return "the write can be reached without parsing the Bidder string"
+	}
+	// the successor taken when the parse succeeded
+	var succ *ssa.BasicBlock
+	for _, b := range fn.Blocks {
+		iff, ok := b.Instrs[len(b.Instrs)-1].(*ssa.If)
+		if !ok {
+			continue
+		}
+		bo, ok := iff.Cond.(*ssa.BinOp)
+		if !ok {
+			continue
+		}
+		isErr := func(v ssa.Value) bool {
+			ex, ok := v.(*ssa.Extract)
+			return ok && ex.Tuple == ssa.Value(parse) && ex.Index == 1
+		}
+		isNil := func(v ssa.Value) bool { c, ok := v.(*ssa.Const); return ok && c.IsNil() }
+		if !(isErr(bo.X) && isNil(bo.Y)) && !(isErr(bo.Y) && isNil(bo.X)) {
+			continue
+		}
+		switch bo.Op {
+		case token.EQL:
+			succ = b.Succs[0]
+		case token.NEQ:
+			succ = b.Succs[1]
+		}
+	}
+	if succ == nil {
+		return "the parse's error is not tested"
+	}
+	barrier := map[*ssa.BasicBlock]*ssa.Store{}
+	for _, s := range stores {
+		barrier[s.Block()] = s
+	}
+	seen := map[*ssa.BasicBlock]bool{}
+	stack := []*ssa.BasicBlock{succ}
+	for len(stack) > 0 {
+		x := stack[len(stack)-1]
+		stack = stack[:len(stack)-1]
+		if seen[x] {
+			continue
+		}
+		seen[x] = true
+		if s := barrier[x]; s != nil {
+			if x == set.Block() && !instrDominates(s, set) {
+				return "the record is written before its Bidder is made canonical"
+			}
+			continue
+		}
+		if x == set.Block() {
+			return "a path on which the Bidder string parses reaches the write without making it canonical"
+		}
+		stack = append(stack, x.Succs...)
+	}
+	return ""
+}
+
+func deref(t types.Type) types.Type {
+	if p, ok := t.Underlying().(*types.Pointer); ok {
+		return p.Elem()
 	}
 	return t
 }
